@@ -295,6 +295,17 @@ func (e *envT) oracle(w *worker, pre *wstate, o opDef, fault, where string, so *
 				}
 				cl = "stale-tracking-ref-of-branch-deleted-on-remote"
 			}
+			if cl != "" {
+				// finding 1 needs that no cached branch of this remote survives; anything else is a different defect
+				for _, k := range sortedKeys(pre.LRefs) {
+					pfx := "refs/remotes/" + rname + "/"
+					if strings.HasPrefix(k, pfx) {
+						if _, still := preRefs["refs/heads/"+k[len(pfx):]]; still {
+							return cl + ":although-another-cached-branch-remains"
+						}
+					}
+				}
+			}
 			return cl
 		})
 
@@ -1118,7 +1129,7 @@ func TestVerifC03(t *testing.T) {
 		os.Exit(2)
 	}
 
-	deadline := c.DeadlineAfter(150*time.Second, 23*time.Minute)
+	deadline := c.DeadlineAfter(8*time.Minute, 28*time.Minute)
 	only := os.Getenv("VERIF_ONLY")
 	var vparts []vx.Part
 	var infos []bfsInfo
